@@ -1,0 +1,9 @@
+//go:build verif
+
+package proxy
+
+// Verification hook for property C10 (username filter). Add-only, no behaviour change: it
+// exposes the predicate handleServerLogin applies to ServerLogin.Username.
+
+// VerifC10UsernameOK reports whether the login username check admits name.
+func VerifC10UsernameOK(name string) bool { return playerNameRegex.MatchString(name) }
